@@ -128,7 +128,9 @@ def patharg_history_case(g):
     k = r.choice(keys)
     rule_parts = [("prim", k)] if r.random() < 0.6 else [("map", {"key": None, "index": None, "value": None, "condition": None,
                                                                    "list_condition": None, "map_condition": None, "label": None})]
-    t = c17.gen_cond(g, doc)
+    # (a quarter of them with the path inside a list / mapping argument: such an argument is the condition's own
+    # stored container, which a call must not write into)
+    t = c17.gen_cond(g, doc, nested_p=0.25)
     if r.random() < 0.4:
         # a type-sensitive use of the argument
         pa = c17.gen_patharg(g, doc)
